@@ -427,7 +427,8 @@ def w_observe(args):
 
 
 SEQ_DOCS = ['foo\n<div>\nbar\n', '> q\n<!-- c -->\n', '- a\n<pre>x</pre>\n', 'foo\n| a |\n|---|\n', 'some text\n\n> q\n\n- i\n', 'a `c` b\n',
-            '# h #\n\n#\n', '[r]\n\n[r]: /u "t"\n', 't\n===\n\n> t\n> ===\n', '```py\nc\n```\n\n$m$ [[w|l]]\n']
+            '# h #\n\n#\n', '[r]\n\n[r]: /u "t"\n', 't\n===\n\n> t\n> ===\n', '```py\nc\n```\n\n$m$ [[w|l]]\n',
+            '<!-- open', '<![CDATA[ open\n', '<div>\nfoo\n\n*bar*\n']
 _SEQ_BASE = {}
 
 
